@@ -1506,6 +1506,15 @@ class SymEval:
             self.loop_stack = self.loop_stack[:-1]
             self.loops[cid] = LoopInfo(cid, "comp", src, "x", {}, {}, None, node, self.live)
             return ("comp", "list", elt, (("x", src),), ())
+        if name == "operator.attrgetter" and len(args) >= 2 and not kwargs and all(a_[0] == "const" and isinstance(a_[1], str) and all(p_.isidentifier() for p_ in a_[1].split(".")) for a_ in args):
+            # operator.attrgetter("a", "b") is lambda x: (x.a, x.b)
+            lam = ast.parse("lambda __x: (" + ", ".join(f"__x.{a_[1]}" for a_ in args) + ",)", mode="eval").body
+            for n in ast.walk(lam):
+                if hasattr(n, "lineno") and node is not None:
+                    ast.copy_location(n, node)
+            u = self.uid()
+            self.closures[u] = Closure(u, "lambda", lam, Frame(frame.func, frame.module, frame.cls, {}, parent=frame), qualname=f"{frame.func}.<lambda>")
+            return ("closure", u)
         if name in ("operator.itemgetter", "operator.attrgetter") and len(args) == 1 and not kwargs and (name.endswith("itemgetter") or args[0][0] == "const"):
             # operator.itemgetter(k) is lambda x: x[k]; operator.attrgetter("a") is lambda x: x.a
             src = "lambda __x: __x[__k]" if name.endswith("itemgetter") else f"lambda __x: __x.{args[0][1]}"
